@@ -4,9 +4,10 @@
 EXTENDS Naturals, Sequences, FiniteSets, TLC, Json
 VARIABLES cfg
 Ops == {"lap", "div", "veclap", "veclapdef", "adv", "masscons", "burgers", "fisher", "ou", "ns"}
-All == [kind : {"fr_struct"}, op : Ops, d : 1..3, withT : BOOLEAN, R : 1..2, M : 1..2, b : 1..3, deg : 1..2, Tmax : {1, 2}]
+All == [kind : {"fr_struct"}, op : Ops, d : 1..3, withT : BOOLEAN, R : 1..2, M : 1..3, b : 1..3, deg : 1..2, Tmax : {1, 2}]
 NS(c) == c.d - (IF c.withT THEN 1 ELSE 0)          \* number of spatial dimensions
 OK(c) == /\ NS(c) >= 1
+         /\ (c.M = 3 => c.op \in {"div", "veclapdef", "veclap"} /\ c.R = 1)
          /\ (c.op = "lap" => c.M = 1)
          /\ (c.op = "div" => c.M = NS(c))
          /\ (c.op = "veclapdef" => c.M = NS(c))          \* default u_vec_ndim: as many components as spatial dimensions
